@@ -21,8 +21,14 @@ const property = "C07"
 func buildPkg(w *vrt.W, i int) *gbk.Pkg {
 	r := w.Rand(i)
 	name := fmt.Sprintf("pk%d", w.Batch)
-	if w.Batch < gbk.NumSeeds {
+	switch {
+	case w.Batch < gbk.NumSeeds:
 		return gbk.SeedPackage(r, w.Batch, name)
+	case w.Batch == gbk.NumSeeds+1:
+		// a small package of its own: the embedded-unexported-type shape costs an extra round while it is broken
+		g := gbk.NewG(r, name, false)
+		g.UnexportedEmbeddedProbe()
+		return g.Pkg()
 	}
 	g := gbk.NewG(r, name, false)
 	p := g.RandomPackage()
@@ -30,6 +36,16 @@ func buildPkg(w *vrt.W, i int) *gbk.Pkg {
 		g.RefusedProbe() // exercises the refusal path every run
 	}
 	return p
+}
+
+func position(i, n int) string {
+	switch {
+	case i == 0:
+		return "first"
+	case i == n-1:
+		return "last"
+	}
+	return "middle"
 }
 
 func runCase(w *vrt.W, tool *gbk.Tool, i int) {
@@ -67,11 +83,41 @@ func runCase(w *vrt.W, tool *gbk.Tool, i int) {
 			w.Hit("annotation." + a)
 		}
 		seen := map[string]bool{}
-		for _, f := range s.Fields {
-			k := "field." + f.Ty.FK + "/" + f.Vis()
+		once := func(k string) {
 			if !seen[k] {
 				seen[k] = true
 				w.Hit(k)
+			}
+		}
+		for fi, f := range s.Fields {
+			once("field." + f.Ty.FK + "/" + f.Vis())
+			if f.Name == "_" {
+				once("layout.blank-field." + position(fi, len(s.Fields)))
+			}
+			if !f.Embedded {
+				continue
+			}
+			kind := f.EmbKind
+			if kind == "" { // the Emb / EmbNE of the example shapes
+				kind = "struct"
+				if f.EmptyEmb {
+					kind = "struct-empty"
+				}
+			}
+			once("embedded." + kind)
+			if f.Tag != "" {
+				once("embedded-with-tag")
+			}
+			if !f.EmptyEmb {
+				once("embedded-kept-position." + position(fi, len(s.Fields)))
+				for _, o := range s.Fields {
+					if !o.Embedded {
+						once("embedded-kept-next-to." + o.Vis())
+					}
+				}
+				if s.NApp() <= 21 && s.Ann["@fp.Value"] {
+					once("embedded-kept-in-tuple")
+				}
 			}
 		}
 		for _, tp := range s.TParams {
@@ -89,10 +135,10 @@ func runCase(w *vrt.W, tool *gbk.Tool, i int) {
 		if len(s.Doc) > 0 {
 			w.Hit("layout.doc-comment")
 		}
-		for _, f := range s.Fields {
-			if f.JoinNext {
-				w.Hit("layout.multi-name-field")
-				break
+		for fi, f := range s.Fields {
+			if f.JoinNext && fi+1 < len(s.Fields) {
+				once("layout.multi-name-field")
+				once("layout.multi-name-field." + f.Vis() + "+" + s.Fields[fi+1].Vis())
 			}
 		}
 	}
@@ -139,7 +185,7 @@ func main() {
 			if tier == "thorough" {
 				return 160
 			}
-			return 12
+			return 13
 		},
 		Cases:    func(tier string, b int) int { return 1 },
 		Parallel: 16,
@@ -155,20 +201,34 @@ func main() {
 			}
 		},
 		CaseCPUBudget: 600,
-		Rule:          "case = one input package (1..6 struct declarations) drawn from the grammar in verif/gbk: field counts {1,2,3,8,9,20,21,22,30} (counted in applicable fields; `_`-prefixed and empty embedded fields are added on top), private / Public / _underscore / embedded fields, field types basic, named, imported, pointer, slice, []byte, array, map, func, chan (3 directions), interfaces (named, imported, inline, any), fp.Option/Seq/Map/Try/Either/Future/Tuple2/Func1, anonymous structs, other annotated structs, type parameters with any / comparable / named-interface / inline method-set / named and inline type-set constraints and unused parameters, struct tags, annotation sets (@fp.Value alone and with @fp.Json/@fp.JsonTag/@fp.GenLabelled/@fp.String/constructors/PubField, stand-alone @fp.Getter/@fp.With/@fp.Builder/@fp.AllArgsConstructor/@fp.RequiredArgsConstructor), `type (...)` groups, doc comments, `a, b T` fields, `type X Y` re-declarations, hand-written methods carrying generated names. Batches 0..2 are the shapes of the in-repo examples plus the tuple-limit and constraint shapes. gombok (built from the working tree) runs on the package; the package is compiled together with a law test written from the spec and the laws are evaluated on >=64 generated values per struct. distinct_nontrivial = number of distinct struct shapes (multiset of field kind x visibility, annotation set, arity class, constraint kinds, hand-written members) whose laws were actually evaluated (gombok accepted them and the package compiled).",
+		Rule:          "case = one input package (1..6 struct declarations) drawn from the grammar in verif/gbk: field counts {1,2,3,8,9,20,21,22,30} (counted in applicable fields; `_`-prefixed and empty embedded fields are added on top), private / Public / _underscore / blank `_` / embedded fields (embedded: empty and non-empty struct, pointer to struct, pointer to empty struct, local and imported interface, named basic / slice / map / func type, instantiation of a local generic struct with a type or with the struct's own type parameter, generic non-struct, empty generic struct, imported struct, imported empty struct, alias of a struct / of a non-struct; 0..3 per struct in first / middle / last position, with and without struct tag), field types basic, named, imported, pointer, slice, []byte, array, map, func, chan (3 directions), interfaces (named, imported, inline, any), fp.Option/Seq/Map/Try/Either/Future/Tuple2/Func1, instantiations of local generic types (Cell[int], Cell[T], Bag[T], *Cell[T], Void[T]), aliases, anonymous structs, other annotated structs, type parameters with any / comparable / named-interface / inline method-set / named and inline type-set constraints and unused parameters, struct tags, annotation sets (@fp.Value alone and with @fp.Json/@fp.JsonTag/@fp.GenLabelled/@fp.String/constructors/PubField, stand-alone @fp.Getter/@fp.With/@fp.Builder/@fp.AllArgsConstructor/@fp.RequiredArgsConstructor), `type (...)` groups, doc comments, `a, b T` fields (any mix of private / public / underscore names), `type X Y` re-declarations, hand-written methods carrying generated names. Batches 0..2 are the shapes of the in-repo examples plus the tuple-limit and constraint shapes, batch 3 has one struct per embedded kind / position / sibling kind plus blank, multi-name and generic-instantiation fields, batch 4 adds a struct gombok refuses (error field), batch 5 is the embedded-unexported-type probe. The expected field list of every view comes from the spec: every field except `_`-prefixed ones and embedded EMPTY structs is kept, in declaration order (typed assignments + reflected arities in the law test, and a static census of the generated views: tuple / labelled components, Unapply results, Apply parameters, AsMap / FromMap keys, Mutable twin fields, AsMutable / AsImmutable literals). gombok (built from the working tree) runs on the package; the package is compiled together with a law test written from the spec and the laws are evaluated on >=64 generated values per struct. distinct_nontrivial = number of distinct struct shapes (multiset of field kind x visibility, annotation set, arity class, constraint kinds, hand-written members) whose laws were actually evaluated (gombok accepted them and the package compiled).",
 		Assumptions: []string{
-			"field and type names are ordinary identifiers from a fixed pool: names whose derived method name collides with another member (build, builder, string, a private name next to a public Name), the receiver name r and names of imported packages are outside the grammar",
+			"field and type names are ordinary identifiers from a fixed pool: names whose derived method name collides with another member (build, builder, string, a private name next to a public Name), the receiver name r and names of imported packages are outside the grammar; so are fields named like a member promoted from an embedded field, and embedded types whose promoted methods carry generated names (an embedded fp.Option, an embedded @fp.Value struct)",
+			"embedded kinds outside the grammar: alias of an EMPTY struct (gombok keeps it although the struct is empty; undocumented either way), sync.Mutex-like types (copylocks), the predeclared error (refused, like an error field)",
 			"gombok refusing a declaration (panic such as can't summon / nil dereference, or no output for it) is not a violation; refused shapes are counted",
 			"values are PRNG samples (64 per struct in quick, 96 in thorough), not all values; func values are compared by code pointer among three distinct functions per func type",
 			"packages are PRNG samples of the grammar, not all packages",
 		},
 		Floors: func(tier string) map[string]int64 {
-			m := map[string]int64{"packages": 12, "structs.tested": 40, "law_evaluations": 20000, "distinct": 30,
+			m := map[string]int64{"packages": 13, "structs.tested": 40, "law_evaluations": 20000, "distinct": 30,
 				"hit.arity.21": 1, "hit.arity.22": 1, "hit.arity.>22": 1, "hit.handwritten.bsetter": 1, "hit.handwritten.getter": 1, "hit.handwritten.with": 1,
 				"hit.annotation.@fp.GenLabelled": 1, "hit.annotation.@fp.Json": 1, "hit.annotation.@fp.Builder": 1, "hit.constraint.named-typeset": 1, "hit.constraint.inline-typeset": 1, "hit.constraint.typeset+method": 1,
 				"structs.refused": 1}
+			// every kind of embedded field, in every position, next to every kind of sibling; the other
+			// field categories that could be dropped or mis-ordered without notice (seed package 3 has them all)
+			for _, k := range gbk.EmbKinds() {
+				m["hit.embedded."+k] = 1
+			}
+			for _, k := range []string{"embedded-kept-position.first", "embedded-kept-position.middle", "embedded-kept-position.last", "embedded-kept-next-to.private", "embedded-kept-next-to.public",
+				"embedded-kept-next-to.underscore", "embedded-kept-in-tuple", "embedded-with-tag", "layout.blank-field.first", "layout.blank-field.middle", "layout.blank-field.last",
+				"layout.multi-name-field.private+private", "layout.multi-name-field.public+public", "layout.multi-name-field.private+public", "layout.multi-name-field.underscore+underscore",
+				"field.generic-local/private", "field.alias/private", "layout.type-group"} {
+				m["hit."+k] = 1
+			}
+			m["census.structs"], m["census.views"] = 40, 300
 			if tier == "thorough" {
 				m["packages"], m["structs.tested"], m["law_evaluations"], m["distinct"] = 160, 400, 300000, 250
+				m["census.structs"], m["census.views"] = 400, 3000
 			}
 			return m
 		},
